@@ -1,15 +1,14 @@
 #!/bin/bash
-# usage: tools/seedrun.sh C05 a [props...]  -- apply a seeded patch in the scratch worktree, run the check(s) there, undo
+# usage: tools/seedrun.sh C05 a [props...]  -- apply a seeded patch to a scratch copy of the package, run the check(s) there, undo
 id=$1; v=$2; shift 2
 props=${@:-$id}
 wt=/tmp/wt/$id
 dir=/verif/seeded/$id-$v; [ -d $dir ] || dir=/tmp/seeds/$id/$v
-[ -d $wt ] || git -C /repo worktree add -q --detach $wt HEAD
-cd $wt && git checkout -q -- . && git apply $dir/patch.diff || { echo "APPLY-FAILED $id $v"; exit 3; }
+rm -rf $wt; mkdir -p $wt && cp -r /repo/cryocat $wt/
+cd $wt && git apply $dir/patch.diff || { echo "APPLY-FAILED $id $v"; exit 3; }
 for p in $props; do
   VERIF_EVIDENCE_DIR=/tmp/evid_scratch /verif/check $p --repo $wt > /tmp/evid_scratch_$id$v$p.log 2>&1; rc=$?
   echo "$id-$v check=$p rc=$rc $(grep -c '^VIOLATION' /tmp/evid_scratch_$id$v$p.log) violation(s) $(grep -c ANALYSIS-ERROR /tmp/evid_scratch_$id$v$p.log) analysis-error(s)"
   grep -E "^(BAD|ANALYSIS-ERROR)|^  cryocat" /tmp/evid_scratch_$id$v$p.log | head -${SEEDRUN_LINES:-6}
 done
-cd $wt && git checkout -q -- .
-git -C /repo worktree remove --force $wt
+rm -rf $wt
